@@ -1146,17 +1146,28 @@ func RunPreconditions(c *Ctx, pkgs []string, allowed []allowSite) {
 			// reviewed exceptions are keyed by function, callee and the parameters the argument may depend on
 			// ("derives only from the provider's configuration"): restructuring the computation keeps the key
 			why := ""
-			if !okAll && s.chain == "" {
+			if !okAll {
 				if ce, ok := s.node.(*ast.CallExpr); ok {
 					ai := p.arg
 					if name == "make" || name == "crypto/rand.Int" {
 						ai = 1
 					}
+					// the function that textually holds the call (a helper interpreted in place, or fi itself); a helper the
+					// validated tree does not have counts for the functions it is called from
+					holder := fi
+					if s.chain != "" {
+						for _, hf := range c.P.Funcs {
+							if hf.Body != nil && hf.Lit == nil && hf.Body.Pos() <= ce.Pos() && ce.End() <= hf.Body.End() {
+								holder = hf
+							}
+						}
+					}
+					owners := append(c.attributed(holder), holder.Root().Name)
 					if ai < len(ce.Args) {
-						deps := paramDeps(fi, ce.Args[ai])
+						deps := paramDeps(holder, ce.Args[ai])
 						for k, w := range allow {
 							parts := strings.SplitN(k, "|", 3)
-							if len(parts) != 3 || parts[0] != fi.Root().Name || parts[1] != name {
+							if len(parts) != 3 || !contains(owners, parts[0]) || parts[1] != name {
 								continue
 							}
 							allowedDeps := map[string]bool{}
